@@ -180,9 +180,9 @@ Print Assumptions c07_deliver_leaves_others.
     the recorded parse error of a fed member);
     [mon_duplicate env os] = some label of env is an excuse, or every id of dup_ids os is null or occurs at least
     twice in fed_ids env. *)
-From JV Require SrvMonitors SrvMonitors2 SrvMonDup.
+From JV Require SrvMonitors SrvMonitors2 SrvMonDup SrvMonitors3 SrvMonCancel.
 Module Monitors.
-Import SrvMonitors SrvMonitors2.
+Import SrvMonitors SrvMonitors2 SrvMonitors3.
 Theorem c07_mon_duplicate_sound : forall c tr s oss, run (init_of c) tr = Some (s, oss) ->
   mon_duplicate (env_of tr) (concat oss) = true.
 Proof. exact SrvMonDup.mon_duplicate_sound. Qed.
@@ -201,4 +201,53 @@ Theorem c07_dup_reply_fed_twice_unconditional_refuted :
     count_bytes i (fed_ids (env_of tr)) = 1 /\ existsb label_excuse (env_of tr) = true.
 Proof. exact SrvMonDup.dup_reply_fed_twice_unconditional_refuted. Qed.
 Print Assumptions c07_dup_reply_fed_twice_unconditional_refuted.
+
+(** * Monitor for the first sentence of the property (srv/SrvMonitors3.v, proof: srv/SrvMonCancel.v), extracted and
+    evaluated by the model runner on every harness log, racing ones included (except scenarios with a base context
+    that ends: the model has no such cause, see the head of this file).  Counting / membership only, no interleaving.
+    [cancelled_params os] = the params of the observations that report a handler context as cancelled
+    ([OStart p true], [OGate p true]); [stop_in env] = env contains a stop cause (a Stop call [LCallStop _] or a fed
+    Recv error [LFeed (FErr _)]); [cancel_ids env] = the ids named by the CancelRequest calls [LCallCancel _ id];
+    [fed_msgs env] = the members fed; [cancel_named env p] = some fed member with params p has a non-empty id (after
+    fixID) in cancel_ids env;
+    [before_close os] = the observations of os before its first [OClose] (stopLocked closes the channel before it
+    cancels any context);
+    [mon_cancel_cause env os] = cancel_named env p for every p of cancelled_params (before_close os), and: stop_in env,
+    or cancel_named env p for every p of cancelled_params os. *)
+Theorem c07_mon_cancel_cause_sound : forall c tr s oss, run (init_of c) tr = Some (s, oss) ->
+  mon_cancel_cause (env_of tr) (concat oss) = true.
+Proof. exact SrvMonCancel.mon_cancel_cause_sound. Qed.
+Print Assumptions c07_mon_cancel_cause_sound.
+
+(* a context reported as cancelled before the first close of the channel (order of the observations only) was
+   cancelled by CancelRequest: some fed member with the handler's params has a non-empty id that a CancelRequest call
+   names *)
+Theorem c07_cancelled_before_close_named : forall c tr s oss p, run (init_of c) tr = Some (s, oss) ->
+  In p (cancelled_params (before_close (concat oss))) -> cancel_named (env_of tr) p = true.
+Proof. exact SrvMonCancel.cancelled_before_close_named. Qed.
+Print Assumptions c07_cancelled_before_close_named.
+
+Theorem c07_before_close_spec : forall os o, In o (before_close os) <->
+  exists pre post, os = pre ++ o :: post /\ ~ In OClose pre /\ o <> OClose.
+Proof. exact SrvMonCancel.before_close_spec. Qed.
+Print Assumptions c07_before_close_spec.
+
+(* spelled out: a handler sees its context cancelled only if the environment stopped the server (Stop, or a Recv error
+   or EOF), or called CancelRequest with the non-empty id of a fed member that carries the handler's params *)
+Theorem c07_cancel_cause_spelled : forall c tr s oss p, run (init_of c) tr = Some (s, oss) ->
+  In (OStart p true) (concat oss) \/ In (OGate p true) (concat oss) ->
+  (exists n, In (LCallStop n) (env_of tr)) \/ (exists e, In (LFeed (FErr e)) (env_of tr)) \/
+  exists m n, In m (fed_msgs (env_of tr)) /\ j_params m = p /\ idk m <> [] /\ In (LCallCancel n (idk m)) (env_of tr).
+Proof. exact SrvMonCancel.cancel_cause_spelled. Qed.
+Print Assumptions c07_cancel_cause_spelled.
+
+(* with the harness's unique tokens and no stop cause: THE fed member with the handler's params is a call, and a
+   CancelRequest call names its id *)
+Theorem c07_cancel_cause_unique : forall c tr s oss p m, run (init_of c) tr = Some (s, oss) ->
+  unique_params (env_of tr) = true -> stop_in (env_of tr) = false ->
+  In (OStart p true) (concat oss) \/ In (OGate p true) (concat oss) ->
+  In m (fed_msgs (env_of tr)) -> j_params m = p ->
+  idk m <> [] /\ exists n, In (LCallCancel n (idk m)) (env_of tr).
+Proof. exact SrvMonCancel.cancel_cause_unique. Qed.
+Print Assumptions c07_cancel_cause_unique.
 End Monitors.
